@@ -116,6 +116,41 @@ class _NoOps(ast.NodeTransformer):
         return node
 
 
+class _Commute(ast.NodeTransformer):
+    """a + b -> b + a and a * b -> b * a where one operand is a numeric constant or a call into
+    numpy / scipy / math (IEEE addition and multiplication commute; sequences are left alone)."""
+
+    @staticmethod
+    def _numeric(e):
+        if isinstance(e, ast.Constant) and isinstance(e.value, (int, float)) and \
+                not isinstance(e.value, bool):
+            return True
+        if isinstance(e, ast.UnaryOp) and isinstance(e.op, ast.USub):
+            return _Commute._numeric(e.operand)
+        if isinstance(e, ast.Call):
+            f = e.func
+            while isinstance(f, ast.Attribute):
+                f = f.value
+            if isinstance(f, ast.Name) and f.id in ('np', 'numpy', 'ss', 'math', 'scipy'):
+                return True
+        return False
+
+    @staticmethod
+    def _sequence(e):
+        return isinstance(e, (ast.List, ast.Tuple, ast.JoinedStr, ast.ListComp)) or \
+            (isinstance(e, ast.Constant) and isinstance(e.value, (str, bytes)))
+
+    def visit_BinOp(self, node):
+        self.generic_visit(node)
+        if isinstance(node.op, (ast.Add, ast.Mult)) and \
+                (self._numeric(node.left) or self._numeric(node.right)) and \
+                not (self._sequence(node.left) or self._sequence(node.right)) and \
+                not (isinstance(node.op, ast.Add) and
+                     (isinstance(node.left, ast.Constant) and isinstance(node.left.value, str))):
+            return ast.BinOp(left=node.right, op=node.op, right=node.left)
+        return node
+
+
 class _DictLiteral(ast.NodeTransformer):
     """dict(a=1, b=2)  ->  {'a': 1, 'b': 2}"""
 
@@ -235,6 +270,8 @@ def neutral_variants(text):
         out.append(('dict-literal', ast.unparse(t) + '\n'))
         t = ast.fix_missing_locations(_HoistArg().visit(ast.parse(text)))
         out.append(('hoist-first-argument', ast.unparse(t) + '\n'))
+        t = ast.fix_missing_locations(_Commute().visit(ast.parse(text)))
+        out.append(('commute-arithmetic', ast.unparse(t) + '\n'))
     except Exception as e:   # pragma: no cover
         out.append(('rewrite-error', None))
     return out
